@@ -215,6 +215,43 @@ def recognise(rules: dict[str, dict[str, Any]]) -> dict[str, Any]:
 	return {'levels': levels, 'comp_ops': comp_ops, 'shapes': shapes}
 
 
+def lexer_facts(text: str) -> dict[str, Any]:
+	"""What the reference lexer must know about lark's contextual lexer, read off the LALR table lark builds for grammar.lark
+	(same construction as rogw/tranp/implements/syntax/lark/parser.py:55-61):
+	* `reserved`: every word-shaped anonymous string terminal of the grammar (the keywords; where the parser state accepts one of
+	  them it wins over NAME, elsewhere the word is a NAME — grammar.lark reserves nothing globally);
+	* `statement_start`: the words that are keyword terminals at the start of a statement but cannot start an expression
+	  (`if`, `while`, `return`, …): a text beginning with one of them is not an expression statement;
+	* `soft_names`: alternatives of the rule `name` that are string terminals (`match`, `case`) with their terminal names."""
+	import lark
+	from lark.indenter import PythonIndenter
+	lk = lark.Lark(text, start='file_input', parser='lalr', postlex=PythonIndenter(), propagate_positions=True)
+	table = lk.parser.parser._parse_table
+	terms = {t.name: t for t in lk.terminals}
+
+	def words(state: int) -> set[str]:
+		out = set()
+		for name in table.states[state].keys():
+			t = terms.get(name)
+			if t is not None and type(t.pattern).__name__ == 'PatternStr' and t.pattern.value.isidentifier():
+				out.add(t.pattern.value)
+		return out
+	st0 = table.start_states['file_input']
+	action = table.states[st0].get('LPAR')
+	if action is None or str(action[0]) != 'Shift':
+		raise GrammarShapeError('start state does not shift "(": cannot tell expression starts from statement starts')
+	reserved = sorted(t.pattern.value for t in lk.terminals if type(t.pattern).__name__ == 'PatternStr' and t.pattern.value.isidentifier())
+	soft = []
+	for r in lk.rules:
+		if r.origin.name == 'name' and len(r.expansion) == 1 and r.expansion[0].is_term:
+			t = terms[r.expansion[0].name]
+			if type(t.pattern).__name__ == 'PatternStr':
+				soft.append((t.pattern.value, t.name))
+	if 'NAME' not in terms:
+		raise GrammarShapeError('terminal NAME missing')
+	return {'reserved': reserved, 'statement_start': sorted(words(st0) - words(action[1])), 'soft_names': sorted(soft)}
+
+
 def chars(s: str) -> str:
 	"""Lean `List Char` literal (kernel-reducible, unlike `"..." .toList`)."""
 	def one(c: str) -> str:
@@ -262,6 +299,13 @@ def render(table: dict[str, Any], sha: str) -> str:
 	out.append(f"def ternary : TernaryShape := ⟨{chars(t['alias'])}, {chars(t['body'])}, {chars(t['test'])}, {chars(t['orelse'])}, {chars(t['kw'][0])}, {chars(t['kw'][1])}⟩")
 	lam = sh['lambda']
 	out.append(f"def lambdaShape : LambdaShape := ⟨{chars(lam['rule'])}, {chars(lam['params'])}, {chars(lam['body'])}⟩")
+	lf = table['lexer']
+	out.append('/-- word-shaped anonymous string terminals of grammar.lark (keywords; contextual, not globally reserved) -/')
+	out.append('def reservedWords : List Tranp.Str := [' + ', '.join(chars(w) for w in lf['reserved']) + ']')
+	out.append('/-- keyword terminals acceptable at the start of a statement that cannot start an expression -/')
+	out.append('def statementStartWords : List Tranp.Str := [' + ', '.join(chars(w) for w in lf['statement_start']) + ']')
+	out.append('/-- string alternatives of the rule `name` (soft keywords) with the name of their terminal -/')
+	out.append('def softNameWords : List (Tranp.Str × Tranp.Str) := [' + ', '.join(f'({chars(w)}, {chars(t)})' for w, t in lf['soft_names']) + ']')
 	out.append('def primaryAliases : List Tranp.Str := [' + ', '.join(chars(a) for a in sh['primary']) + ']')
 	out.append('def atomAlternatives : List Tranp.Str := [' + ', '.join(chars(a) for a in sh['atom']) + ']')
 	out.append('')
@@ -275,9 +319,10 @@ def generate() -> list[dict[str, Any]]:
 		text = f.read()
 	sha = hashlib.sha256(text.encode('utf-8')).hexdigest()
 	table = recognise(read_rules(text))
+	table['lexer'] = lexer_facts(text)
 	changed = write_if_changed(OUT, render(table, sha))
 	return [{'file': os.path.relpath(OUT, os.path.dirname(GENERATED_DIR)), 'source': 'data/grammar.lark', 'sha256': sha,
-		'entries': len(table['levels']) + len(table['comp_ops']), 'changed': changed}]
+		'entries': len(table['levels']) + len(table['comp_ops']), 'changed': changed, 'lexer': table['lexer']}]
 
 
 if __name__ == '__main__':
